@@ -18,6 +18,10 @@ import XotModel.Driver.Fmap
 import XotModel.Driver.Parse
 import XotModel.Driver.Fclone
 import XotModel.Driver.Repair
+import XotModel.Driver.Lex
+import XotModel.Driver.SerTokens
+import XotModel.Driver.Fprefix
+import XotModel.Driver.Fanyorder
 
 open XotModel.Driver
 
@@ -34,6 +38,9 @@ def dispatch (st : DState) (line : String) : DState × String :=
   | "html" :: rest => (st, (handleHtml st rest).getD "bad-request")
   | "build" :: rest => (st, (handleBuild st rest).getD "bad-request")
   | "repair" :: rest => (st, (handleRepair st rest).getD "bad-request")
+  | "lex" :: rest => (st, (handleLex rest).getD "bad-request")
+  | "representable" :: rest => (st, (handleRepresentable st rest).getD "bad-request")
+  | "sertokens" :: rest => (st, (handleSerTokens st rest).getD "bad-request")
   | _ => (st, "bad-request")
 
 structure MState where
@@ -44,11 +51,15 @@ def dispatchAll (st : MState) (line : String) : MState × String :=
   match words line with
   | "forest" :: "spec" :: rest => (st, (handleFspec st.forest ("spec" :: rest)).getD "bad-request")
   | "forest" :: "specx" :: rest => (st, (handleFspec st.forest ("specx" :: rest)).getD "bad-request")
+  | "forest" :: "prog" :: rest => (st, (handleFanyorder st.forest rest).getD "bad-request")
   | "forest" :: "fixed" :: rest => (match handleFfixed st.forest rest with | some (fs, resp) => ({ st with forest := fs }, resp) | none => (st, "bad-request"))
   | "forest" :: rest =>
-    (match (handleFclone st.d.env st.forest rest).orElse (fun _ => handleForest st.forest rest) with
-     | some (fs, resp) => ({ st with forest := fs }, resp)
-     | none => (st, "bad-request"))
+    (match handleFprefix st.d.env st.forest rest with
+     | some (fs, env, resp) => ({ st with forest := fs, d := { st.d with env := env } }, resp)
+     | none =>
+       (match (handleFclone st.d.env st.forest rest).orElse (fun _ => handleForest st.forest rest) with
+        | some (fs, resp) => ({ st with forest := fs }, resp)
+        | none => (st, "bad-request")))
   | "fmap" :: rest =>
     (match handleFmap st.forest rest with
      | some (fs, resp) => ({ st with forest := fs }, resp)
